@@ -180,8 +180,9 @@ class Driver(object):
         except subprocess.TimeoutExpired:
             return {'lines': len(self.sample), 'result': 'interpreter timed out after 600 s (not judged)'}
         if p.returncode != 0:
-            raise HarnessError('interpreter run of Driver/%s.lean exited %d: %s'
-                               % (self.prop, p.returncode, p.stderr.decode('utf-8', 'replace')[:1000]))
+            # e.g. the interpreter's stack is smaller than the compiled driver's: not a disagreement
+            return {'lines': len(self.sample), 'result': 'interpreter exited %d (not judged): %s'
+                    % (p.returncode, p.stderr.decode('utf-8', 'replace')[:300])}
         lines = p.stdout.decode('utf-8').split('\n')
         if lines and lines[-1] == '':
             lines.pop()
